@@ -33,6 +33,14 @@ package patchvalidator
 //@ func validateURI
 //@   ensures (result == nil) == (uri != "" && uriOK(uri))
 //
+// the dispatcher: a string endpoint is validated as it is (no trimming or other normalisation before the check), a
+// list of strings / of values element by element, nil is rejected
+//@ func validateServiceEndpoint
+//@   ensures serviceEndpoint == nil ==> result != nil
+//@   ensures isType(serviceEndpoint, "string") ==> (result == nil) == (unbox(serviceEndpoint, "string") != "" && uriOK(unbox(serviceEndpoint, "string")))
+//@   ensures isType(serviceEndpoint, "[]string") ==> (result == nil) == (forall q int :: 0 <= q && q < len(unbox(serviceEndpoint, "[]string")) ==> unbox(serviceEndpoint, "[]string")[q] != "" && uriOK(unbox(serviceEndpoint, "[]string")[q]))
+//@   ensures isType(serviceEndpoint, "[]any") && result == nil ==> (forall q int :: 0 <= q && q < len(unbox(serviceEndpoint, "[]any")) && isType(unbox(serviceEndpoint, "[]any")[q], "string") ==> unbox(unbox(serviceEndpoint, "[]any")[q], "string") != "" && uriOK(unbox(unbox(serviceEndpoint, "[]any")[q], "string")))
+//
 //@ func validateServiceEndpointObjects
 //@   loop 1
 //@     invariant forall q int :: 0 <= q && q < _k && isType(objs[q], "string") ==> unbox(objs[q], "string") != "" && uriOK(unbox(objs[q], "string"))
